@@ -379,11 +379,19 @@ async fn client_app(net: Net, o: Shared<CObs>, probes: Vec<Signal>, sp: Spawner)
 
 const CIDS: [u64; 10] = [0, 4, 8, 12, 400, 1, 2, 3, 5, (1 << 62) - 4];
 
-pub fn run_client(ids: &[u64], probe_first: bool, style: Style, sched: &[u16], ctx: &mut Ctx) -> Verdict {
+/// `open_wait`: the peer allows no further request stream; every send_request after the first parks waiting for one, the GOAWAY
+/// is processed during that wait, then the peer grants the stream (MAX_STREAMS). The call was made before the GOAWAY, the
+/// request would start after it.
+pub fn run_client(ids: &[u64], probe_first: bool, style: Style, sched: &[u16], open_wait: bool, ctx: &mut Ctx) -> Verdict {
     ctx.eval();
     fastrand::seed(17);
     let net = Net::new();
     net.set_raw(Side::Server);
+    if open_wait {
+        let mut g = net.lock();
+        g.ends[Side::Client.idx()].stream_credit[0] = probe_first as u64;
+        g.ends[Side::Client.idx()].grants_frozen = true;
+    }
     let o: Shared<CObs> = shared(CObs::default());
     let nprobes = ids.len() + probe_first as usize;
     let probes: Vec<Signal> = (0..nprobes).map(|_| Signal::new()).collect();
@@ -397,7 +405,11 @@ pub fn run_client(ids: &[u64], probe_first: bool, style: Style, sched: &[u16], c
         pk += 1;
     }
     for id in ids {
-        pops.extend([PeerOp::Write(0, peer::goaway_frame(*id)), PeerOp::Barrier, PeerOp::Signal(pk), PeerOp::Barrier]);
+        if open_wait {
+            pops.extend([PeerOp::Signal(pk), PeerOp::Barrier, PeerOp::Write(0, peer::goaway_frame(*id)), PeerOp::Barrier, PeerOp::GrantBidi(1), PeerOp::Barrier]);
+        } else {
+            pops.extend([PeerOp::Write(0, peer::goaway_frame(*id)), PeerOp::Barrier, PeerOp::Signal(pk), PeerOp::Barrier]);
+        }
         pk += 1;
     }
     let mut peer = RawPeer::new(Side::Server, pops);
@@ -407,7 +419,7 @@ pub fn run_client(ids: &[u64], probe_first: bool, style: Style, sched: &[u16], c
     let obs = o.borrow().clone();
     let closes = net.close_calls(Side::Client);
     let opened: Vec<u64> = net.lock().events.iter().filter_map(|(_, e)| if let NetEvent::Open { side: Side::Client, stream } = e { (stream & 3 == 0).then_some(*stream) } else { None }).collect();
-    let case = || json!({"kind": "client", "ids": ids.iter().map(|i| i.to_string()).collect::<Vec<_>>(), "probe_first": probe_first, "style": format!("{style:?}"), "sched": sched, "observed": format!("{obs:?}"), "closes": format!("{closes:?}"), "opened": opened});
+    let case = || json!({"kind": "client", "ids": ids.iter().map(|i| i.to_string()).collect::<Vec<_>>(), "probe_first": probe_first, "open_wait": open_wait, "style": format!("{style:?}"), "sched": sched, "observed": format!("{obs:?}"), "closes": format!("{closes:?}"), "opened": opened});
     if end == RunEnd::StepBound {
         return Err(Failure::fault("step bound"));
     }
@@ -438,7 +450,12 @@ pub fn run_client(ids: &[u64], probe_first: bool, style: Style, sched: &[u16], c
         }
         let errored = error_at.map(|e| e < goaways_before).unwrap_or(false);
         match (got, errored) {
-            (Some(Err(ErrInfo::RemoteClosing)), _) => ctx.class("client_remote_closing"),
+            (Some(Err(ErrInfo::RemoteClosing)), _) => {
+                ctx.class("client_remote_closing");
+                if open_wait {
+                    ctx.class("client_goaway_processed_while_waiting_for_a_stream");
+                }
+            }
             (Some(Err(ErrInfo::Conn(ConnInfo::Local { code }))), true) if *code == code::ID_ERROR => {}
             (other, _) => return fail(format!("send_request #{k} after {goaways_before} GOAWAY frame(s): {other:?} (a client that has processed a GOAWAY starts no new request)")),
         }
@@ -535,7 +552,8 @@ fn exhaustive(ctx: &mut Ctx, shard: usize, nshards: usize) -> Verdict {
                 c /= CIDS.len();
             }
             for pf in [false, true] {
-                run_client(&ids, pf, if code % 2 == 0 { Style::Eager } else { Style::Tiny }, &[], ctx)?;
+                run_client(&ids, pf, if code % 2 == 0 { Style::Eager } else { Style::Tiny }, &[], false, ctx)?;
+                run_client(&ids, pf, Style::Eager, &[], true, ctx)?;
             }
         }
     }
@@ -553,7 +571,9 @@ fn run_tape(tape: &[u16], ctx: &mut Ctx) -> Verdict {
         let pf = t.bool();
         let style = [Style::Eager, Style::Tiny, Style::Random][t.pick(3)];
         let sched: Vec<u16> = tape[t.position().min(tape.len())..].to_vec();
-        return run_client(&ids, pf, style, &sched, ctx);
+        let open_wait = t.chance(1, 3);
+        let sched: Vec<u16> = tape[t.position().min(tape.len())..].to_vec();
+        return run_client(&ids, pf, style, &sched, open_wait, ctx);
     }
     let ops = gen_server_ops(&mut t, 20, false);
     let style = [Style::Eager, Style::Tiny, Style::Random][t.pick(3)];
@@ -597,7 +617,7 @@ fn run_direct(d: &Value, ctx: &mut Ctx) -> Verdict {
         }
         Some("client") => {
             let ids: Vec<u64> = d["ids"].as_array().map(|a| a.iter().filter_map(|x| x.as_str().and_then(|s| s.parse().ok())).collect()).unwrap_or_default();
-            run_client(&ids, d["probe_first"].as_bool().unwrap_or(false), style, &sched, ctx)
+            run_client(&ids, d["probe_first"].as_bool().unwrap_or(false), style, &sched, d["open_wait"].as_bool().unwrap_or(false), ctx)
         }
         _ => Err(Failure::fault("unknown direct case")),
     }
